@@ -234,8 +234,19 @@ def check(ctx):
     ctx.ob("R-1", "encoder:key::CoseKeySet", is_call(rt, codec.TO_ARRAY) and rt[2] == (("field", ("param", 0), "0"),),
            "CoseKeySet encodes as to_cbor_array(self.0)", where=e.span, detail={"returns": show(rt)[:120]})
     check_protected_map_form(ctx, "R-1")
+    from rules import extractors as _ex
+    _ex.check_to_cbor_array(ctx, "R-1")
     ctx.floor("R-1", "encoders analysed", len(MESSAGE_TYPES) + 4, 12)
 
+    # ---- "Decoding that output returns the original value": the decoder tables are the inverse of these encoder tables (C07's
+    # recognisers), the depth-budgeted decoders are entered with a positive budget (C09 R-5) and a private-use value that
+    # encodes is classified as private on the way back (C17 R-3)
+    from rules import c07, c09, c17
+    c07.check(ctx.under("R-7", "round-trip"))
+    c09.check_wrappers(ctx.under("R-7", "round-trip"), "R-5")
+    for imp in prog.impls:
+        if imp.get("trait") == c17.WPR:
+            c17.check_private_predicate(ctx.under("R-7", "round-trip"), "R-3", imp["self_ty"])
     # ---- R-3 emptiness and the protected bstr ---------------------------------------------------------------
     check_is_empty(ctx, "R-3")
     check_cbor_bstr(ctx, "R-3")
